@@ -17,7 +17,7 @@ vars == <<i, done>>
 SeqToSet(s) == { s[j] : j \in 1..Len(s) }
 Scenario0(x) == Scenario(x.mode, x.hash, x.url, x.fb, x.cache, x.files, x.arch, x.patch, x.phash, x.purl, x.pcache,
                     x.pfiles, x.parch, x.pdir, x.diff, x.cmd)
-ToSc(x) == Vcs(Scenario0(x), x.kind, x.vcs, x.rev)
+ToSc(x) == [Vcs(Scenario0(x), x.kind, x.vcs, x.rev) EXCEPT !.dser = x.dser]
 ToFS(o) == [dir |-> SeqToSet(o.dir), cache |-> o.cache, pcache |-> o.pcache]
 
 Verdict(id, clause, run, stage, expok, expfs) ==
